@@ -145,7 +145,7 @@ func (q *question) PipelineSend(ctx context.Context, transform []capnp.PipelineO
 	q.c.mu.Lock()
 	q.c.unlockSender() // Can't be holding either lock while calling PlaceArgs.
 	q.c.mu.Unlock()
-	err = q.c.newPipelineCallMessage(msg, q.id, transform, q2.id, s)
+	params, err := q.c.newPipelineCallMessage(msg, q.id, transform, q2.id, s)
 	if err != nil {
 		q.c.mu.Lock()
 		q.c.questions[q2.id] = nil
@@ -172,6 +172,7 @@ func (q *question) PipelineSend(ctx context.Context, transform []capnp.PipelineO
 		q.c.questions[q2.id] = nil
 		q.c.questionID.remove(uint32(q2.id))
 		q.c.mu.Unlock()
+		params.release()
 		return capnp.ErrorAnswer(s.Method, errorf("send message: %v", err)), func() {}
 	}
 	q2.c.tasks.Add(1)
@@ -180,6 +181,7 @@ func (q *question) PipelineSend(ctx context.Context, transform []capnp.PipelineO
 		q2.handleCancel(ctx)
 	}()
 	q.c.mu.Unlock()
+	params.release()
 
 	ans := q2.p.Answer()
 	return ans, func() {
@@ -192,10 +194,10 @@ func (q *question) PipelineSend(ctx context.Context, transform []capnp.PipelineO
 // newPipelineCallMessage builds a Call message targeted to a promised answer..
 //
 // The caller MUST NOT be holding onto c.mu or the sender lock.
-func (c *Conn) newPipelineCallMessage(msg rpccp.Message, tgt questionID, transform []capnp.PipelineOp, qid questionID, s capnp.Send) error {
+func (c *Conn) newPipelineCallMessage(msg rpccp.Message, tgt questionID, transform []capnp.PipelineOp, qid questionID, s capnp.Send) (releaseList, error) {
 	call, err := msg.NewCall()
 	if err != nil {
-		return errorf("build call message: %v", err)
+		return nil, errorf("build call message: %v", err)
 	}
 	call.SetQuestionId(uint32(qid))
 	call.SetInterfaceId(s.Method.InterfaceID)
@@ -203,16 +205,16 @@ func (c *Conn) newPipelineCallMessage(msg rpccp.Message, tgt questionID, transfo
 
 	target, err := call.NewTarget()
 	if err != nil {
-		return errorf("build call message: %v", err)
+		return nil, errorf("build call message: %v", err)
 	}
 	pa, err := target.NewPromisedAnswer()
 	if err != nil {
-		return errorf("build call message: %v", err)
+		return nil, errorf("build call message: %v", err)
 	}
 	pa.SetQuestionId(uint32(tgt))
 	oplist, err := pa.NewTransform(int32(len(transform)))
 	if err != nil {
-		return errorf("build call message: %v", err)
+		return nil, errorf("build call message: %v", err)
 	}
 	for i, op := range transform {
 		oplist.At(i).SetGetPointerField(op.Field)
@@ -220,18 +222,18 @@ func (c *Conn) newPipelineCallMessage(msg rpccp.Message, tgt questionID, transfo
 
 	payload, err := call.NewParams()
 	if err != nil {
-		return errorf("build call message: %v", err)
+		return nil, errorf("build call message: %v", err)
 	}
 	args, err := capnp.NewStruct(payload.Segment(), s.ArgsSize)
 	if err != nil {
-		return errorf("build call message: %v", err)
+		return nil, errorf("build call message: %v", err)
 	}
 	if err := payload.SetContent(args.ToPtr()); err != nil {
-		return errorf("build call message: %v", err)
+		return nil, errorf("build call message: %v", err)
 	}
 
 	if s.PlaceArgs == nil {
-		return nil
+		return nil, nil
 	}
 	m := args.Message()
 	if err := s.PlaceArgs(args); err != nil {
@@ -239,18 +241,21 @@ func (c *Conn) newPipelineCallMessage(msg rpccp.Message, tgt questionID, transfo
 			c.Release()
 		}
 		m.CapTable = nil
-		return errorf("place arguments: %v", err)
+		return nil, errorf("place arguments: %v", err)
 	}
 	clients, states := extractCapTable(m)
 	c.mu.Lock()
 	// TODO(soon): save param refs
 	_, err = c.fillPayloadCapTable(payload, clients, states)
 	c.mu.Unlock()
-	releaseList(clients).release()
 	if err != nil {
-		return annotate(err).errorf("build call message")
+		releaseList(clients).release()
+		return nil, annotate(err).errorf("build call message")
 	}
-	return nil
+	// The descriptors refer to the clients (an import sent back to its
+	// host is named by its import ID), so the caller must hold on to
+	// them until the message has been sent.
+	return releaseList(clients), nil
 }
 
 func (q *question) PipelineRecv(ctx context.Context, transform []capnp.PipelineOp, r capnp.Recv) capnp.PipelineCaller {
